@@ -574,7 +574,10 @@ class Parser:
         consolidated: list[Any] = []  # ast.Constant | ast.FormattedValue
         for p in values:
             if consolidated and isinstance(consolidated[-1], ast.Constant) and isinstance(p, ast.Constant):
-                consolidated[-1].value += p.value  # type: ignore[unreachable]
+                if not consolidated[-1].value:  # type: ignore[unreachable]
+                    # a piece that is empty once decoded (a lone backslash-newline) contributes no position either
+                    consolidated[-1].lineno, consolidated[-1].col_offset = p.lineno, p.col_offset
+                consolidated[-1].value += p.value
                 consolidated[-1].end_lineno = p.end_lineno
                 consolidated[-1].end_col_offset = p.end_col_offset
             else:
